@@ -33,10 +33,10 @@ unsigned long itoa_model(unsigned short v, char *to, int base)
 { unsigned n = declen(v); __CPROVER_assert(__CPROVER_w_ok(to, n), "model: room for the tag digits"); for (unsigned i = 0; i < 5; ++i) if (i < n) to[i] = 'd'; return n; }     /* K-int: itoa writes the decimal digits and returns their number */
 struct bf_m;
 unsigned long bf_print(const struct bf_m *f, char *to)
-{ unsigned n = ((const struct bf_m *)f)->printlen; __CPROVER_assert(n == 0 || __CPROVER_w_ok(to, n), "model: room for the value"); for (unsigned i = 0; i < 16; ++i) if (i < n) to[i] = 'v'; return n; }   /* virtual print(): the value text, free of SOH */
+{ unsigned n = ((const struct bf_m *)f)->printlen; __CPROVER_assert(n == 0 || __CPROVER_w_ok(to, n), "model: room for the value"); for (unsigned i = 0; i < 4; ++i) if (i < n) to[i] = 'v'; return n; }   /* virtual print(): the value text, free of SOH */
 _Bool mb_has_group_count(const struct bf_m *f) { return 0; }
 unsigned long sv_size(const struct sv_m *s) { return s->size; }
-unsigned long sv_copy(const struct sv_m *s, char *to, unsigned long n, unsigned long pos) { for (unsigned i = 0; i < 16; ++i) if (i < n) to[i] = 'u'; return n; }
+unsigned long sv_copy(const struct sv_m *s, char *to, unsigned long n, unsigned long pos) { for (unsigned i = 0; i < 4; ++i) if (i < n) to[i] = 'u'; return n; }
 struct FIX8_MessageBase;
 unsigned long mb_encode_group(const struct FIX8_MessageBase *self, unsigned short fnum, char *to) { __CPROVER_assert(0, "model: no repeating groups in these parts"); return 0; }
 '''
@@ -48,12 +48,12 @@ void h_encode(void)
   for (unsigned i = 0; i < 3; ++i) {
     m._fp._presence.arr[i]._fnum = nondet_ushort(); m._fp._presence.arr[i]._field_traits = nondet_ushort(); m._fp._presence.arr[i]._pos = 0; m._fp._presence.arr[i]._ftype = 0;
     __CPROVER_assume(m._fp._presence.arr[i]._fnum >= 1 && !(m._fp._presence.arr[i]._field_traits & (1u << K_group)));
-    f[i]._fnum = m._fp._presence.arr[i]._fnum; f[i].printlen = nondet_uint(); __CPROVER_assume(f[i].printlen <= 16);
+    f[i]._fnum = m._fp._presence.arr[i]._fnum; f[i].printlen = nondet_uint(); __CPROVER_assume(f[i].printlen <= 4);
     m._pos.ents[i].first = nondet_ushort(); m._pos.ents[i].second = &f[i];
   }
   __CPROVER_assume(m._fp._presence.arr[0]._fnum < m._fp._presence.arr[1]._fnum && m._fp._presence.arr[1]._fnum < m._fp._presence.arr[2]._fnum);
   __CPROVER_assume(m._pos.ents[0].first <= m._pos.ents[1].first && m._pos.ents[1].first <= m._pos.ents[2].first);          /* multimap: ascending positions */
-  m._unknown.data = 0; m._unknown.size = nondet_ulong(); __CPROVER_assume(m._unknown.size <= 16);
+  m._unknown.data = 0; m._unknown.size = nondet_ulong(); __CPROVER_assume(m._unknown.size <= 4);
   __exc = 0;
   unsigned long r = mb_encode(&m, g_out);
   unsigned long off = 0;
@@ -111,9 +111,9 @@ UNIT = dict(
     ],
     postlude=POST,
     proofs=[
-        dict(name='encode', harness='h_encode', properties=['C01', 'C05'], solvers=['cadical', 'z3'], timeout=dict(quick=600, thorough=1800), floor=3, level='bounded', unwind=6, object_bits=10),
+        dict(name='encode', harness='h_encode', properties=['C01', 'C05'], solvers=['cadical', 'z3'], timeout=dict(quick=600, thorough=1800), floor=3, level='bounded', unwind=7, object_bits=10),
     ],
     trusted_base=['ASSUMED: std::multimap iterates in ascending key order; itoa writes the decimal digits of the tag (K-int); the virtual print() writes the value text and returns its length; '
                   'Presence::find / end, trait bits, std::string size / copy (model bodies in specs/k_menc.py)'],
-    assumptions=['bounded: parts of at most 3 fields, values of at most 16 bytes, no repeating groups'],
+    assumptions=['bounded: parts of at most 3 fields, values of at most 4 bytes, no repeating groups'],
 )
